@@ -25,6 +25,11 @@ type RegEntry struct {
 type Registry struct {
 	Note        string               `json:"note"`
 	Obligations map[string]*RegEntry `json:"obligations"`
+	// Unproved: obligations that are generated from the pinned tree and do not
+	// discharge there (verdict at rebaseline time). They are not claimed. The quick
+	// tier does not spend solver time on them again (the thorough tier does); an
+	// obligation that is in neither list is new and is always tried.
+	Unproved map[string]string `json:"unproved,omitempty"`
 }
 
 type KnownFinding struct {
@@ -312,7 +317,8 @@ func (w *World) generate(props []string) *generated {
 	if hasTag(props, "C20") {
 		var sweep []string
 		for k, fn := range w.fnIndex {
-			if fn.Blocks == nil || w.contracts[k] != nil || g.byFn[k] != nil {
+			// (a function whose contract is only trusted is still swept: its body is code like any other)
+			if fn.Blocks == nil || g.byFn[k] != nil || (w.contracts[k] != nil && !w.contracts[k].Trusted) {
 				continue
 			}
 			if !sweepScope(k) || fn.Synthetic != "" || strings.Contains(k, ".init") {
@@ -337,7 +343,7 @@ func (w *World) generate(props []string) *generated {
 
 // sweepScope: the packages covered by the zero-annotation safety sweep.
 func sweepScope(key string) bool {
-	return strings.HasPrefix(key, "bsonkit.") || strings.HasPrefix(key, "mongokit.")
+	return strings.HasPrefix(key, "bsonkit.") || strings.HasPrefix(key, "mongokit.") || strings.HasPrefix(key, "dbkit.") || strings.HasPrefix(key, "lungo.")
 }
 
 func (w *World) obligationsFor(p string, g *generated) []*Oblig {
@@ -413,11 +419,18 @@ func (w *World) rebaseline(g *generated, reg *Registry, props []string, verif st
 					fmt.Printf("unstable (not registered): %s\n", r.o.Name)
 				}
 				delete(good, r.o.Name)
+				if reg.Unproved == nil {
+					reg.Unproved = map[string]string{}
+				}
+				reg.Unproved[r.o.Name] = r.v.Status
 				if run == 0 {
 					fmt.Printf("not registered: %-8s %5.1fs %s\n", r.v.Status, r.v.Seconds, r.o.Name)
 				}
 			}
 		}
+	}
+	for name := range good {
+		delete(reg.Unproved, name)
 	}
 	// replace the entries of the rebaselined properties, keep the others
 	for name, e := range reg.Obligations {
@@ -483,11 +496,25 @@ func (w *World) checkProperty(p, tier string, seed int, g *generated, reg *Regis
 	}
 	// unregistered obligations only get the short first stage; the race with the
 	// full timeout is spent on registered obligations and known findings
-	res := runAllSel(obs, outDir, timeout, 16, func(o *Oblig) bool {
+	// quick tier: obligations that did not discharge on the pinned tree either (registry
+	// "unproved") are not tried again, unless a known finding has to be re-confirmed on them
+	var run, skipped []*Oblig
+	for _, o := range obs {
+		_, isReg := reg.Obligations[o.Name]
+		if _, un := reg.Unproved[o.Name]; un && !isReg && tier == "quick" && knownFor(o.Name) == nil && !o.Cover {
+			skipped = append(skipped, o)
+			continue
+		}
+		run = append(run, o)
+	}
+	res := runAllSel(run, outDir, timeout, 16, func(o *Oblig) bool {
 		_, isReg := reg.Obligations[o.Name]
 		// (obligations explained by a known finding are expected to fail: the short first stage is enough)
 		return isReg || o.Kind == "lemma"
 	})
+	for _, o := range skipped {
+		res = append(res, result{o, Verdict{Status: "not-tried(" + reg.Unproved[o.Name] + " on the pinned tree)"}})
+	}
 
 	byName := map[string]*checkOutcome{}
 	var outcomes []*checkOutcome
@@ -533,7 +560,7 @@ func (w *World) checkProperty(p, tier string, seed int, g *generated, reg *Regis
 		}
 	}
 	for name, e := range reg.Obligations {
-		if !serves(e.Props, p) || byName[name] != nil {
+		if !serves(e.Props, p) || byName[name] != nil || !contractDerived(e.Kind) {
 			continue
 		}
 		_, fresh := successors(name, e)
@@ -546,7 +573,7 @@ func (w *World) checkProperty(p, tier string, seed int, g *generated, reg *Regis
 	}
 	sort.Slice(retry, func(i, j int) bool { return retry[i].Name < retry[j].Name })
 	if len(retry) > 0 {
-		rr := runAll(retry, outDir, timeout*4, 8, []string{"z3-new", "z3", "cvc5"}, false)
+		rr := runAll(retry, outDir, timeout*4, 4, []string{"z3-new", "z3", "cvc5", "cvc5-enum"}, false)
 		for _, r := range rr {
 			oc := byName[r.o.Name]
 			if r.v.Status == "unsat" {
@@ -638,7 +665,15 @@ func (w *World) checkProperty(p, tier string, seed int, g *generated, reg *Regis
 			}
 			continue
 		}
-		// the name vanished: look at its group, then at its family
+		// the name vanished. An obligation that belonged to an instruction (safe/*, pre@call,
+		// frame) is retired with its instruction: the instructions that are there now have
+		// their own obligations (registered ones are checked above, new ones under rule 2).
+		if !contractDerived(e.Kind) {
+			nRegOK++
+			retired = append(retired, name)
+			continue
+		}
+		// An obligation that stems from a contract clause: look at its group, then at its family
 		members, fresh := successors(name, e)
 		switch {
 		case len(fresh) > 0:
@@ -769,6 +804,10 @@ func (w *World) checkProperty(p, tier string, seed int, g *generated, reg *Regis
 					trusted["assumed contract: "+a] = true
 				}
 			}
+			for a := range oc.o.vc.assumed {
+				ghostDefs(w.contracts[a], a, trusted)
+			}
+			ghostDefs(w.contracts[oc.o.Func], oc.o.Func, trusted)
 		}
 		if len(samples) < 6 && oc.ok && !oc.o.Cover {
 			samples = append(samples, map[string]interface{}{"obligation": oc.o.Name, "kind": oc.o.Kind, "at": oc.o.Pos, "clause": oc.o.Desc, "verdict": oc.v.Status, "solver": oc.v.Solver, "seconds": round2(oc.v.Seconds), "smt_file": oc.v.File})
@@ -870,3 +909,18 @@ func (w *World) checkProperty(p, tier string, seed int, g *generated, reg *Regis
 }
 
 func round2(f float64) float64 { return float64(int(f*100+0.5)) / 100 }
+
+// ghostDefs records the clauses of a contract that define a ghost history variable
+// (tag ghostdef): callers assume them, the body is not checked against them, because
+// the variable is by definition what these clauses say (e.g. "a collection is tainted
+// once a mutating method on it has failed").
+func ghostDefs(c *Contract, key string, into map[string]bool) {
+	if c == nil || c.Extern || c.Trusted {
+		return
+	}
+	for _, e := range c.Ensures {
+		if hasTag(e.Tags, "ghostdef") {
+			into["ghost history definition (assumed by callers, not an obligation of the body): "+key+": "+e.Text] = true
+		}
+	}
+}
